@@ -161,6 +161,21 @@ def check_clean(ctx):
                        {"FILLVALUE": "the variable's own fill value (an arbitrary number)", "RAWFILL": "the raw number stored under the mask",
                         "UNKNOWN": "something the analysis cannot classify"}.get(res[k], res[k]), want),
                    expected=want, found=res[k], sample={"rule": "C04.2", "class": k, "result": res[k]})
+    # a return that does not hand back the cleaned data (the empty-array short cut) is taken only for an EMPTY variable: its path
+    # condition implies data.shape[0] == 0 - otherwise whole variables (every 1-D coordinate, say) would be read as empty
+    from .. import boolq
+    empty = boolq.prop(symeval.eval_expr_string("data.shape[0] == 0"))
+    for o in outs:
+        if o in main:
+            continue
+        at = o.value.as_atom() if isinstance(o.value, Rat) else None
+        is_empty = at is not None and at.func in ("zeros", "empty", "ones") and at.args and isinstance(at.args[0], Rat) and at.args[0].const_value() == 0
+        ctx.ob("C04.2", site, is_empty, "the short cut returns an array without elements", loc=prog.loc(m, o.node),
+               msg="for an empty variable clean() returns %s: values that are in no file enter the data" % str(o.value)[:60])
+        ok = boolq.implies(boolq.conj(o.conds), empty)
+        ctx.ob("C04.2", site, ok, "the short cut that returns an empty array is taken only when the variable has no elements", loc=prog.loc(m, o.node),
+               msg="clean() returns %s without reading the variable under a condition that does not imply data.shape[0] == 0: %s"
+                   % (str(o.value)[:40], " and ".join(("" if pol else "not ") + str(c_)[:120] for c_, pol in o.conds)))
     ctx.floor("C04.2", 5)
     # control: the interpreter sees a dropped fill_value and a dropped disjunct
     ctrl = "def clean(data):\n    data = data[:].astype(float)\n    q = np.ma.filled(data)\n    q[np.isnan(q)] = -999\n    q[(q == -999)] = np.nan\n    return q\n"
